@@ -7,7 +7,8 @@ ASSUMPTIONS = ['faults that clap itself rejects (unknown option, non-numeric --t
 TRUSTED = []
 
 def corrupt_expr(rnd, e):
-    k = rnd.choice(['trunc', 'unbalanced', 'unknown', 'arity-', 'arity+', 'trailing', 'empty', 'dotdot', 'dotname', 'dangling'])
+    k = rnd.choice(['trunc', 'unbalanced', 'unknown', 'arity-', 'arity+', 'trailing', 'empty', 'dotdot', 'dotname', 'dangling', 'dotarity'])
+    if k == 'dotarity': return rnd.choice(['(.size 1)', '(.get "a" 1)', '(.now)', '(.take 1 2)', '(.keys .)', '(.? 1 2 3)']), k       # the dot spelling supplies the first argument: one written argument too many is an arity error
     if k == 'dangling': return rnd.choice(['.a.', '.arr#', '.a.b.', '(= .a. "x")', '(size .arr#)', '.a..b', '.#', '^.']), k      # a path that ends in (or doubles) its separator names no key / index
     if k == 'dotdot': return rnd.choice(['(..size)', '(..take 1)', '(...keys)', '(..get "a")']), k           # the dot sugar takes ONE dot: `..size` is the unknown function `.size`
     if k == 'dotname': return '(.no_such_function %s)' % e, k
